@@ -16,6 +16,8 @@ package main
 //   G <src> <null> <k> <name>* ; then GR <n> followed by n R lines (fid -1) or GR E
 
 import (
+	"bytes"
+	"errors"
 	"fmt"
 	"regexp"
 	"unicode/utf8"
@@ -26,6 +28,7 @@ import (
 	"strings"
 
 	"github.com/tobgu/qframe"
+	"github.com/tobgu/qframe/config/csv"
 	"github.com/tobgu/qframe/config/eval"
 	"github.com/tobgu/qframe/config/groupby"
 	"github.com/tobgu/qframe/config/newqf"
@@ -1695,6 +1698,12 @@ func (g *gen) genOp() {
 		g.equals(src, other)
 	case "rebuild":
 		g.rebuild(src)
+	case "tocsv":
+		g.toCSV(src, bad)
+	case "tojson":
+		g.toJSON(src)
+	case "wfault":
+		g.writerFaults(src)
 	}
 }
 
@@ -2068,4 +2077,252 @@ func (g *gen) rebuild(src *hframe) {
 	}
 	nf := g.finish(fid, func() qframe.QFrame { return qframe.New(data, fns...) })
 	g.equals(src, nf)
+}
+
+// ---------------------------------------------------------------- renderings: ToCSV / ToJSON and reading them back
+
+type facts struct{ nan, inf, utf8ok, cr, undef bool }
+
+func frameFacts(f *hframe) facts {
+	fc := facts{utf8ok: true}
+	for _, c := range f.cols {
+		if !utf8.ValidString(c.name) {
+			fc.utf8ok = false
+		}
+		if strings.Contains(c.name, "\r") {
+			fc.cr = true
+		}
+		switch c.typ {
+		case "f":
+			if v, err := f.qf.FloatView(c.name); err == nil {
+				for i := 0; i < v.Len(); i++ {
+					x := v.ItemAt(i)
+					if math.IsNaN(x) {
+						fc.nan = true
+					}
+					if math.IsInf(x, 0) {
+						fc.inf = true
+					}
+				}
+			}
+		case "s", "e":
+			for _, s := range colStrings(f, c) {
+				if !utf8.ValidString(s) {
+					fc.utf8ok = false
+				}
+				if strings.Contains(s, "\r") {
+					fc.cr = true
+				}
+			}
+			for _, s := range c.vals {
+				if !utf8.ValidString(s) {
+					fc.utf8ok = false
+				}
+			}
+		case "u":
+			fc.undef = true
+		}
+	}
+	return fc
+}
+
+var typeNames = map[string]string{"i": "int", "f": "float", "b": "bool", "s": "string", "e": "enum"}
+
+func (g *gen) toCSV(src *hframe, bad bool) {
+	r := g.r
+	fc := frameFacts(src)
+	if fc.undef {
+		return
+	}
+	header := r.P(3, 4)
+	var cols []string
+	if r.P(1, 3) && len(src.cols) > 0 {
+		for _, c := range src.cols {
+			cols = append(cols, c.name)
+		}
+		for i := len(cols) - 1; i > 0; i-- {
+			j := r.Intn(i + 1)
+			cols[i], cols[j] = cols[j], cols[i]
+		}
+		if bad {
+			if r.Bool() {
+				cols = cols[:len(cols)-1]
+			} else {
+				cols[0] = "nosuch"
+			}
+		}
+	}
+	if len(cols) == 0 {
+		cols = nil
+	}
+	emptyNull := r.Bool()
+	g.w.Line(append(append([]string{"W", tx.Int(src.id), "csv", tx.Bool01(header)}, nameToks(cols)...), tx.Bool01(emptyNull))...)
+	var buf bytes.Buffer
+	var err error
+	pmsg := ""
+	func() {
+		defer func() {
+			if p := recover(); p != nil {
+				pmsg = fmt.Sprint(p)
+			}
+		}()
+		fns := []csv.ToConfigFunc{csv.Header(header)}
+		if cols != nil {
+			fns = append(fns, csv.Columns(cols))
+		}
+		err = src.qf.ToCSV(&buf, fns...)
+	}()
+	switch {
+	case pmsg != "":
+		g.w.Line("WO", "P", tx.HexS(pmsg))
+		return
+	case err != nil:
+		g.w.Line("WO", "E")
+		return
+	}
+	g.w.Line("WO", tx.Hex(buf.Bytes()))
+	if len(src.cols) == 0 || fc.cr {
+		return
+	}
+	written := cols
+	if written == nil {
+		for _, c := range src.cols {
+			written = append(written, c.name)
+		}
+	}
+	typs := map[string]string{}
+	ev := map[string][]string{}
+	for _, c := range src.cols {
+		typs[c.name] = typeNames[c.typ]
+		if c.typ == "e" && len(c.vals) > 0 {
+			ev[c.name] = c.vals
+		}
+	}
+	fns := []csv.ConfigFunc{csv.Types(typs), csv.EmptyNull(emptyNull)}
+	if len(ev) > 0 {
+		fns = append(fns, csv.EnumValues(ev))
+	}
+	if !header {
+		fns = append(fns, csv.Headers(written))
+	}
+	qf2, pm := safely(func() qframe.QFrame { return qframe.ReadCSV(bytes.NewReader(buf.Bytes()), fns...) })
+	if pm != "" {
+		g.w.Line("R", "-2", "P", tx.HexS(pm))
+		return
+	}
+	toks, _, _, _ := g.observeSafely(qf2)
+	g.w.Line(append([]string{"R", "-2"}, toks...)...)
+}
+
+func (g *gen) toJSON(src *hframe) {
+	fc := frameFacts(src)
+	if fc.undef {
+		return
+	}
+	g.w.Line("W", tx.Int(src.id), "json")
+	var buf bytes.Buffer
+	var err error
+	pmsg := ""
+	func() {
+		defer func() {
+			if p := recover(); p != nil {
+				pmsg = fmt.Sprint(p)
+			}
+		}()
+		err = src.qf.ToJSON(&buf)
+	}()
+	switch {
+	case pmsg != "":
+		g.w.Line("WO", "P", tx.HexS(pmsg))
+		return
+	case err != nil:
+		g.w.Line("WO", "E")
+		return
+	}
+	g.w.Line("WO", tx.Hex(buf.Bytes()))
+	if len(src.cols) == 0 || src.n == 0 || fc.nan || fc.inf || !fc.utf8ok {
+		return
+	}
+	names := []string{}
+	ev := map[string][]string{}
+	for _, c := range src.cols {
+		names = append(names, c.name)
+		if c.typ == "e" {
+			ev[c.name] = c.vals
+		}
+	}
+	fns := []newqf.ConfigFunc{newqf.ColumnOrder(names...)}
+	if len(ev) > 0 {
+		fns = append(fns, newqf.Enums(ev))
+	}
+	qf2, pm := safely(func() qframe.QFrame { return qframe.ReadJSON(bytes.NewReader(buf.Bytes()), fns...) })
+	if pm != "" {
+		g.w.Line("R", "-2", "P", tx.HexS(pm))
+		return
+	}
+	toks, _, _, _ := g.observeSafely(qf2)
+	g.w.Line(append([]string{"R", "-2"}, toks...)...)
+}
+
+var errWriter = errors.New("injected write failure")
+
+// faultWriter accepts the first limit bytes and fails from then on.
+type faultWriter struct {
+	limit    int
+	accepted int
+}
+
+func (w *faultWriter) Write(p []byte) (int, error) {
+	if w.accepted+len(p) <= w.limit {
+		w.accepted += len(p)
+		return len(p), nil
+	}
+	n := w.limit - w.accepted
+	w.accepted = w.limit
+	return n, errWriter
+}
+
+// writerFaults runs ToCSV and ToJSON against a writer that starts failing at every byte offset.
+//   WF <src> <kind> <total> <k> <err 0|1|P> <accepted>
+func (g *gen) writerFaults(src *hframe) {
+	if src.err || frameFacts(src).undef {
+		return
+	}
+	for _, kind := range []string{"csv", "json"} {
+		var full bytes.Buffer
+		var err error
+		if kind == "csv" {
+			err = src.qf.ToCSV(&full)
+		} else {
+			err = src.qf.ToJSON(&full)
+		}
+		if err != nil {
+			continue
+		}
+		total := full.Len()
+		if total > 6000 {
+			continue
+		}
+		for k := 0; k <= total; k++ {
+			fw := &faultWriter{limit: k}
+			res := "0"
+			func() {
+				defer func() {
+					if p := recover(); p != nil {
+						res = "P"
+					}
+				}()
+				var e error
+				if kind == "csv" {
+					e = src.qf.ToCSV(fw)
+				} else {
+					e = src.qf.ToJSON(fw)
+				}
+				if e != nil {
+					res = "1"
+				}
+			}()
+			g.w.Line("WF", tx.Int(src.id), kind, tx.Int(total), tx.Int(k), res, tx.Int(fw.accepted))
+		}
+	}
 }
